@@ -282,7 +282,9 @@ def run_part(job):
                     slim = []
                     for i, (rel, is_dir, j, n, name) in enumerate(plan):
                         k = kind_of(rel)
-                        core = k in ("checkpoints", "INITIAL", "blobs-dir", "working-log-dir") and n in BLOCKING
+                        core = k in ("checkpoints", "INITIAL", "blobs-dir", "working-log-dir") and n in BLOCKING and n not in ("delete", "mode-000")
+                        if k == "old-working-log" and n in ("replaced-by-file", "mode-000"):
+                            continue
                         if state != "A" and k in ("blob", "lock", "old-working-log"):
                             continue
                         if k in ("blob", "lock") and n not in BLOCKING:
